@@ -99,38 +99,105 @@ Proof.
 Qed.
 Print Assumptions C06_ws_insignificant.
 
-(** ** The round trip for the quoted family
+(** ** The round trip: quoted, braced and NAKED spellings
 
-    Full statement (kept visible; NOT proved - the naked-string family is covered by the correspondence
-    suites only, because a naked string's extent depends on what follows it):
+    Full statement:
 
       forall (a : list astmt) (s : spelling), valid a -> permitted a s -> parse (print a s) = POk a
 
-    for ALL permitted spellings, including naked strings, every amount form (known units in any letter
-    case, explicit quantities, prepositions, remainder words).
-
-    Proved part ([_partial]): a spelling is an annotated syntax tree [precipe] (Model/Printer.v):
-    [print_recipe r] is its text and [value_recipe r] the abstract syntax it spells, WITH the offsets at
-    which the printer puts the output names, the reference names and the amounts.  The family covers
-      - every name part quoted (either quote, every character raw / escaped) or braced (text and number
-        parts in every layout), segments separated by arbitrary horizontal space (which is part of the name);
-      - amounts (every number layout): none; unit-less quantity [2 'eggs']; quantity with ANY unit name of the
+    A spelling is an annotated syntax tree [precipe] (Model/Printer.v): [print_recipe r] is its text and
+    [value_recipe r] the abstract syntax it spells, WITH the offsets at which the printer puts the output
+    names, the reference names and the amounts.  [recipe_ok r] is the (decidable, boolean) condition
+    [permitted].  The family covers
+      - every name part quoted (either quote, every character raw / escaped), braced (text and number
+        parts in every layout) or NAKED (a chunk matching the naked_string regex: first character neither
+        special nor whitespace, inner characters not special and no line break, last character no
+        whitespace), segments separated by arbitrary horizontal space (which is part of the name); two
+        naked chunks are never neighbours (the text between them would belong to one chunk);
+      - amounts (every number layout): none; unit-less quantity [2 eggs]; quantity with ANY unit name of the
         generated table in any letter case / inner spacing, with or without space before it, optionally followed by
-        "of" / "of the" [2 Kg of the 'flour'] (reusing C12's recognition theorems); [n of (the)]; [n %] and
+        "of" / "of the" [2 Kg of the flour] (reusing C12's recognition theorems); [n of (the)]; [n %] and
         [n % of (the)]; [n *]; the remainder words [remaining / remainder / rest / left over] in any case, optionally
-        followed by "of" / "of the"; explicit quantities [{ 2 "big sprigs" } of the] with a quoted free-form unit
-        (characters that need no escape) or without unit.  NOT covered: naked or multi-segment free-form units;
+        followed by "of" / "of the"; explicit quantities [{ 2 big "fat sprigs" } of the] with a free-form unit
+        of any number of naked / quoted segments, or without unit;
       - steps with any number of inputs, nesting to any depth, arbitrary whitespace (line breaks included)
         around parentheses and commas, optional trailing comma;
       - left-to-right shorthand at statement level and inside parentheses;
       - outputs lists, [=] and [:=], arbitrary horizontal space around them;
       - any leading whitespace, trailing spaces, LF / CR line ends, blank lines, indentation, optional
         final line break.
-    [recipe_ok r] are the side conditions under which the spelling is permitted (all decidable). *)
+
+    Side conditions on naked chunks (the Coq counterpart of harness/rgv/gen/programs.py [spell_name] and its
+    [dangerous_first_words]); all are evaluated by running the MODEL'S OWN scanners on the chunk followed by ",":
+      - a naked FIRST chunk of a reference name without amount does not begin with a digit and is no
+        remainder word followed by a word boundary ([ref_name_ok]);
+      - a naked first chunk [X] after an amount ([naked_after_amt_ok]): does not begin with a digit, ".", "%",
+        "*"; [preposition], "the" + boundary and [known_unit] all fail on [X ","]; no whitespace-delimited
+        prefix of [X] is a whitespace-delimited prefix of a spelling of a table unit ([not_unit_prefix]: the
+        unit regex lets any whitespace run stand for the blank of a multi-word unit); and when the amount ends
+        in a word (unit, "of", "the", remainder word) and no space follows, [X] does not begin with a word
+        character;
+      - what follows a name whose last chunk is naked stops the chunk ([naked_stopb]; true at every place
+        the family puts a name: before "(", ",", ")", "=", ":=", a line break, the end).
+
+    Where [recipe_ok] is STRICTER than the implementation (the exact remaining gap to the full statement;
+    these spellings are exercised by the correspondence suites only):
+      (g1) the text of a free-form unit inside an explicit quantity uses only characters that need no escape
+           in a brace group (no digit, brace, backslash, line break); directly after an integer it does
+           not begin with "." or "/" (for "/" the implementation indeed reads [{3/x}] as a name);
+      (g2) [not_unit_prefix] and the "no word character right after a word" rule are sufficient, not
+           necessary (e.g. [2 tea leaves] is rejected because "tea" begins "tea spoons", although the
+           implementation reads it as 2 of "tea leaves");
+      (g3) a name after an amount does not begin with "." (the implementation accepts [2 .x]). *)
+Theorem C06_roundtrip_naked_partial : forall r : precipe,
+  recipe_ok r = true -> parse (print_recipe r) = POk (value_recipe r).
+Proof. exact Proofs.ParserFuel.recipe_roundtrip. Qed.
+Print Assumptions C06_roundtrip_naked_partial.
+
+(** The earlier name of the theorem (when the family had quoted and braced segments only); kept so that
+    references to it stay valid.  It now is the same statement over the extended family. *)
 Theorem C06_roundtrip_quoted_partial : forall r : precipe,
   recipe_ok r = true -> parse (print_recipe r) = POk (value_recipe r).
 Proof. exact Proofs.ParserFuel.recipe_roundtrip. Qed.
 Print Assumptions C06_roundtrip_quoted_partial.
+
+(** A member of the family written with naked strings throughout:
+<<
+  sauce = boil(2 large eggs, 1/2 kg of them apples, 50% stock 'x', rest of the oil, {3 big "fat sprigs"ish} thyme, 0.5 * water), stir
+>>  *)
+Definition C06_example_naked : precipe :=
+  let nk (x : string) := mkName (SN (s x)) [] in
+  mkPR [] [
+    mkPS (Some (nk "sauce", [], [32], false, [32]))
+         (XStep (nk "boil") [] []
+            (XRef (Some (AmNum (NTInt 0 2), [32])) (nk "large eggs"))
+            [([], [32], XRef (Some (AmUnit (NTFrac 0 1 [] 0 2) [32] (s "kg") (s "kg") (Some ([32], PwOf (s "of"))), [32])) (nk "them apples"));
+             ([], [32], XRef (Some (AmPercent (NTInt 0 50) [] None, [32])) (mkName (SN (s "stock")) [([32], SQ 39 [] (s "x"))]));
+             ([], [32], XRef (Some (AmRem (RwWord 2 (s "rest")) (Some ([32], PwOfThe (s "of") [32] (s "the"))), [32])) (nk "oil"));
+             ([], [32], XRef (Some (AmExplicit (NTInt 0 3) [] (Some ([32], mkName (SN (s "big")) [([32], SQ 34 [] (s "fat sprigs")); ([], SN (s "ish"))])) [] None, [32])) (nk "thyme"));
+             ([], [32], XRef (Some (AmStar (NTDec (s "0") (s "5")) [32], [32])) (nk "water"))]
+            None [])
+         [([], [32], nk "stir")] ([], None)].
+
+Example C06_roundtrip_naked_ex :
+  recipe_ok C06_example_naked = true /\
+  print_recipe C06_example_naked = s "sauce = boil(2 large eggs, 1/2 kg of them apples, 50% stock 'x', rest of the oil, {3 big ""fat sprigs""ish} thyme, 0.5 * water), stir" /\
+  parse (print_recipe C06_example_naked) = POk (value_recipe C06_example_naked).
+Proof. vm_compute. repeat split; reflexivity. Qed.
+
+(** The side conditions at work: spellings that would be read differently are not permitted
+    ([2 kg flour] as a NAME after the number 2, [2 of it], [2 tea ..], [2 of] + [the pie], [rest day], [2 eggs] as a
+    name), harmless neighbours are ([2 of] + [them], [restful]). *)
+Example C06_naked_side_conditions :
+  let nk (x : string) := mkName (SN (s x)) [] in
+  let two := Some (AmNum (NTInt 0 2), [32]) in
+  let two_of := Some (AmOf (NTInt 0 2) [32] (PwOf (s "of")), [32]) in
+  (expr_ok (XRef two (nk "kg flour")), expr_ok (XRef two (nk "of it")), expr_ok (XRef two (nk "tea")),
+   expr_ok (XRef two_of (nk "the pie")), expr_ok (XRef None (nk "rest day")), expr_ok (XRef None (nk "2 eggs")))
+  = (false, false, false, false, false, false) /\
+  (expr_ok (XRef two (nk "large eggs")), expr_ok (XRef two_of (nk "them")), expr_ok (XRef None (nk "restful")))
+  = (true, true, true).
+Proof. vm_compute. split; reflexivity. Qed.
 
 (** A concrete member of the family:
 <<
@@ -162,7 +229,7 @@ Definition C06_example_recipe2 : precipe :=
                     ([], [32], XRef (Some (AmPercent (NTInt 0 50) [] (Some ([32], PwOf (s "oF"))), [9])) (nm "stock"));
                     ([], [32], XRef (Some (AmRem (RwWord 2 (s "REST")) (Some ([32], PwOfThe (s "of") [32] (s "the"))), [32])) (nm "oil"));
                     ([], [32], XRef (Some (AmRem (RwLeftOver (s "Left") [32; 32] (s "over")) None, [])) (nm "wine"));
-                    ([], [32], XRef (Some (AmExplicit (NTMixed 0 1 [32] 0 1 [] [] 0 2) [32] (Some ([9], 34, s "big sprigs")) []
+                    ([], [32], XRef (Some (AmExplicit (NTMixed 0 1 [32] 0 1 [] [] 0 2) [32] (Some ([9], mkName (SQ 34 [] (s "big sprigs")) [])) []
                                              (Some ([32], PwOf (s "of"))), [32])) (nm "thyme"));
                     ([], [32], XRef (Some (AmExplicit (NTInt 0 3) [] None [32] None, [])) (mkName (SB [BStr (s "eggs") []]) []))]
                    None [])
@@ -213,9 +280,10 @@ Theorem C06_trailing_comma : forall nm w s0 first more st s1 (k : str) fuel o b,
 Proof. exact Proofs.ParserEquiv.trailing_comma. Qed.
 Print Assumptions C06_trailing_comma.
 
-(** ** Two permitted spellings (of the proved family) of the same description parse to the same
-    abstract syntax up to offsets - hence compile identically ([Model/Compiler.v] never looks at an offset
-    except to report an error position). *)
+(** ** Two permitted spellings (of the family of [C06_roundtrip_naked_partial]: quoted, braced, naked) of the same
+    description parse to the same abstract syntax up to offsets - hence compile identically: by
+    [C01_compile_refines_sym] the compiler's result is a function of the abstract syntax, and
+    [Model/Compiler.v] never looks at an offset except to report an error position. *)
 Theorem C06_same_description : forall r1 r2,
   recipe_ok r1 = true -> recipe_ok r2 = true ->
   strip_offsets (value_recipe r1) = strip_offsets (value_recipe r2) ->
@@ -223,3 +291,15 @@ Theorem C06_same_description : forall r1 r2,
                 /\ strip_offsets a1 = strip_offsets a2.
 Proof. exact Proofs.ParserEquiv.same_description. Qed.
 Print Assumptions C06_same_description.
+
+(** The same recipe step spelled naked and quoted. *)
+Example C06_same_description_ex :
+  let nk (x : string) := mkName (SN (s x)) [] in
+  let q (x : string) := mkName (SQ 39 [] (s x)) [] in
+  let r1 := mkPR [] [mkPS None (XStep (nk "fry") [] [] (XRef (Some (AmNum (NTInt 0 2), [32])) (nk "large eggs")) [] None []) [] ([], None)] in
+  let r2 := mkPR [] [mkPS None (XStep (q "fry") [32] [32] (XRef (Some (AmNum (NTInt 1 2), [])) (q "large eggs")) [] (Some []) [10]) [] ([32], Some (10, []))] in
+  recipe_ok r1 = true /\ recipe_ok r2 = true /\
+  print_recipe r1 = s "fry(2 large eggs)" /\
+  print_recipe r2 = s "'fry' ( 02'large eggs'," ++ [10] ++ s ") " ++ [10] /\
+  strip_offsets (value_recipe r1) = strip_offsets (value_recipe r2).
+Proof. vm_compute. repeat split; reflexivity. Qed.
